@@ -18,8 +18,8 @@ static int C03;
 
 static carquet_reader_t* open_mode(int mode, const uint8_t* img, size_t n, int verify, carquet_error_t* err) {
     carquet_reader_options_t o; carquet_reader_options_init(&o); o.verify_checksums = verify != 0;
-    if (mode == 3) return carquet_reader_open_buffer(img, n, NULL, err);      /* 3, 4: options omitted (documented as "may be NULL for defaults") */
-    if (mode == 4) return carquet_reader_open(g_path, NULL, err);
+    if (mode == 3) return carquet_reader_open_buffer(img, n, NULL, NULL);      /* 3, 4: options and error argument omitted (both documented as "may be NULL") */
+    if (mode == 4) return carquet_reader_open(g_path, NULL, NULL);
     if (mode == 0) return carquet_reader_open_buffer(img, n, &o, err);
     o.use_mmap = mode == 2; return carquet_reader_open(g_path, &o, err);
 }
